@@ -6,7 +6,7 @@ CONSTANTS
     Variants = {"ia"}
     ColSets = {{"x"}, {"k", "x"}, {"x", "q"}, {"k"}}
     Kinds = {"steady_state", "time_course", "protocol", "protocol_time_course", "mc.steady_state", "mc.time_course", "mc.scan_steady_state"}
-    FailModes = {"intfail", "nosteady", "raise"}
+    FailModes = {"intfail", "nosteady", "raise", "latestep"}
     LabelSchemes = {"range", "shuffled", "strings", "repeated"}
     KeyedByLabel = FALSE
     NameSchemes = {"plain", "keyword", "underscore", "operator", "mixed"}
